@@ -167,6 +167,19 @@ def frame_cases():
         ("mapping/iso", [mpq, X, tind], lambda: (mpq.F(X, tind), mpq.detDF(X, tind), mpq.invDF(X), mpq.invF(mpq.F(X, tind), tind))),
         ("coo/add-dot", [A, x], lambda: (form.elemental(basis, c=y) + form.elemental(basis, c=y)).tocsr() @ x),
     ]
+    # every exported solver called on the system itself (no condensation in between: the solver sees the caller's own matrix and vector), twice with one solver object
+    from skfem import utils as U
+    Mm = fem.BilinearForm(lambda u, v, w: u * v).assemble(basis)
+    rhs = fem.LinearForm(lambda v, w: (1. + w.x[0]) * v).assemble(basis)
+    for nm, mk in (("direct", U.solver_direct_scipy), ("cg", U.solver_iter_cg), ("pcg", U.solver_iter_pcg), ("krylov", U.solver_iter_krylov)):
+        def run_(mk=mk):
+            s_ = mk()
+            first = solve(Mm, rhs, solver=s_)
+            second = solve(Mm, rhs, solver=s_)
+            if not np.allclose(first, second, rtol=1e-9, atol=1e-12):
+                raise AssertionError("the second solve of the same system with the same solver object differs from the first by %.2e" % float(np.max(np.abs(first - second))))
+            return first
+        ops.append(("solve/plain/%s" % nm, [Mm, rhs], run_))
     out += ops
     return out
 
